@@ -72,9 +72,20 @@ func genC06(r *core.Rand, p *core.Plan) {
 				// outpoints tell the restarted wallet about it
 				s6 := genSend6(r, 0)
 				s6.A[6], s6.A[1], s6.A[10] = 2, 1, 1
-				p.Ops = append(p.Ops, s6, core.Op{K: "stop"},
-					core.Op{K: "mine", A: []int64{1, 100, -1, 600, int64(r.Uint64() >> 1)}},
-					core.Op{K: "start"}, core.Op{K: "sync"}, genSend6(r, 0))
+				if r.Chance(1, 2) {
+					p.Ops = append(p.Ops, s6, core.Op{K: "stop"},
+						core.Op{K: "mine", A: []int64{1, 100, -1, 600, int64(r.Uint64() >> 1)}},
+						core.Op{K: "start"}, core.Op{K: "sync"}, genSend6(r, 0))
+				} else {
+					// ... or confirmed before it stops, and the confirming
+					// block replaced (by one that confirms it again) while
+					// the wallet is down: the start-up rollback unconfirms
+					// it, only the rescan can confirm it again
+					p.Ops = append(p.Ops, s6,
+						core.Op{K: "mine", A: []int64{1, 100, -1, 600, int64(r.Uint64() >> 1)}}, core.Op{K: "sync"}, core.Op{K: "stop"},
+						core.Op{K: "reorg", A: []int64{1, int64(1 + r.Intn(2)), 100, int64(r.Uint64() >> 1)}},
+						core.Op{K: "start"}, core.Op{K: "sync"}, genSend6(r, 0))
+				}
 				continue
 			}
 			p.Ops = append(p.Ops, core.Op{K: "stop"})
